@@ -54,6 +54,7 @@ import warnings
 from hypothesis import strategies as st
 
 from vp.gen import exprs as G
+G.SYMBOLIC_POOL_VALUES = True  # PoolSum pools may hold the symbols y, z (they are arguments like any other)
 G.INCLUDE_CLOSURES = True  # closures as non-sympy attributes (equality/hash must tell them apart)
 from vp.harness import Result, UnderTestError, ok, skip, under_test, violation
 
@@ -789,6 +790,8 @@ def check_attribute_key(e, tree, desc, labels, nontrivial):
             extra = t[3]
             if current(t) == old_name:
                 extra = {**extra, "phsp_factor": new_name}
+            if t[1] == "PoolSum":
+                extra = G.rename_pool_symbols(extra, sym_old, sym_new)
             return [t[0], t[1], [surgery(a) for a in t[2]], extra]
         return t
 
